@@ -20,6 +20,9 @@ type Intent struct {
 	Creds   bool     `json:"credentials_include,omitempty"`
 	PNA     bool     `json:"private_network_target,omitempty"`
 	Perturb int      `json:"acrh_perturbation,omitempty"`
+	// HostLikeOrigin: the request's Host header equals the origin's host[:port] (e.g. behind a reverse
+	// proxy that serves several sites); the request is still cross-origin as far as the browser is concerned.
+	HostLikeOrigin bool `json:"host_like_origin,omitempty"`
 }
 
 func isTokenByte(b byte) bool {
@@ -205,6 +208,10 @@ func Browser(wrap func(http.Handler) http.Handler, in Intent) (bool, BrowserTrac
 		if in.PNA {
 			req.Hdr = append(req.Hdr, HV{hACRPN, Vals("true")})
 		}
+		if in.HostLikeOrigin && strings.Contains(in.Origin, "://") {
+			req.Host = strings.SplitN(in.Origin, "://", 2)[1]
+			req.TLS = strings.HasPrefix(in.Origin, "https")
+		}
 		resp := Do(wrap, req, nil)
 		tr.PreflightResp = &resp
 		if resp.Called != 0 {
@@ -253,6 +260,10 @@ func Browser(wrap func(http.Handler) http.Handler, in Intent) (bool, BrowserTrac
 	req := Req{Method: method, Hdr: []HV{{hOrigin, Vals(in.Origin)}}}
 	for _, n := range names {
 		req.Hdr = append(req.Hdr, HV{http.CanonicalHeaderKey(n), Vals("v")})
+	}
+	if in.HostLikeOrigin && strings.Contains(in.Origin, "://") {
+		req.Host = strings.SplitN(in.Origin, "://", 2)[1]
+		req.TLS = strings.HasPrefix(in.Origin, "https")
 	}
 	resp := Do(wrap, req, nil)
 	tr.ActualResp = &resp
